@@ -195,6 +195,10 @@ func checkC13(e *RunEnv) *CheckResult {
 			first, last := set[0], set[len(set)-1]
 			// an unstaged edit, a deletion from the working tree, untracked files next to tracked ones
 			steps = append(steps, Write(first, v2(first)), Run("status"), Delete(last), Write("zz new", "new\n"), Write("d~/u", "untracked dir\n"), Run("status"))
+			// the same text with CR LF line ends is a different file
+			if strings.Contains(v1(first), "\n") {
+				steps = append(steps, Write(set[0], strings.ReplaceAll(v1(set[0]), "\n", "\r\n")), Run("status"))
+			}
 			// an untracked file whose name differs from a tracked one only in the case of its letters
 			if cv := swapCase(first); cv != first && !collides(cv, set) {
 				steps = append(steps, Write(cv, "case variant, untracked\n"), Run("status"))
